@@ -13,7 +13,7 @@ Leg S2C : every reachable file of the exhaustive run (TLC -dump) and the final f
           real TrackFileReader.read (a sample also through loader.load_track); the returned Track object is projected
           back to the record format of the model, an exception is recorded by class.
 Leg C2S : every recorded load (those of S2C and seeded random files with much wider alphabets that are not derived from
-          TLC) is validated by TLC against TraceTrackModel.tla: L1 = Fidelity / ValidLoads / Rejection on the recorded
+          TLC) is validated by TLC against TraceTrackModel.tla: L1 = Fidelity / ValidLoads / Rejection / TargetAsWritten on the recorded
           outcome, L2 = equality with Code(f) (error class and further attributes included). The real operation-type
           registry is validated as a table (L2).
 """
@@ -32,6 +32,7 @@ from ..core import Violation
 L1_RULES = [
     "dupTask", "dupChallenge", "dupCorpus", "dupOperation", "noDefault", "twoDefaults", "mixing", "rampUpWithoutWarmup",
     "rampUpGtWarmup", "unknownCompletedBy", "indicesAndDataStreams", "unusedParam", "reservedParam", "schemaType", "schemaMissing",
+    "targetUndetermined",
 ]  # fmt: skip
 
 
@@ -208,7 +209,9 @@ def run(ctx, out):
         "or a returned track counts as not rejected",
         "'mixing iterations with time periods' is read as: a task whose applicable attributes (own or inherited from its parallel element) contain warmup-iterations or iterations "
         "together with warmup-time-period or time-period; rules the loader enforces but the statement does not name (ramp-up only on the parallel element, corpus target "
-        "derivation) are checked at L2 only",
+        "derivation for targets of the other kind / corpus-level targets without the corresponding section) are checked at L2 only",
+        "the target of a document set is part of 'corpora exactly as written': its own target-index / target-data-stream, else the corpus-level one, else the name of the ONLY "
+        "index / data stream (docs/track.rst), nothing with includes-action-and-meta-data; a file that determines no target must not load (rule targetUndetermined, clause TargetAsWritten)",
     ]
     rnd = random.Random(ctx.seed + 10)
     t0 = time.time()
